@@ -32,7 +32,7 @@ EdgesAgree(o, x) ==
   /\ \A j \in 1..Len(o.edges) : /\ EdgeKey(o.edges[j]) = EdgeKey(x.edges[j]) /\ o.edges[j].idx = x.edges[j].idx
                                 /\ o.edges[j].label = x.edges[j].label /\ Pairs(o.edges[j].attrs) = x.edges[j].attrs
 
-Compare(o, x, xLast, d) ==
+Compare(o, x, xLast, d, clsLast) ==
   /\ Chk([i \in 1..Len(o.objs) |-> o.objs[i].path] = [i \in 1..Len(x.objs) |-> x.objs[i].path], "C09", "objects-or-their-order-differ-from-first-appearance",
          <<[i \in 1..Len(o.objs) |-> o.objs[i].path], [i \in 1..Len(x.objs) |-> x.objs[i].path]>>)
   /\ d.k = "null" =>
@@ -50,6 +50,7 @@ Compare(o, x, xLast, d) ==
          /\ Chk(Pairs(o.objs[i].attrs) = x.objs[i].attrs, AttrProp, "attribute-is-not-the-last-assignment", <<o.objs[i].path, o.objs[i].attrs, x.objs[i].attrs>>)
          /\ Chk(o.objs[i].label = x.objs[i].label, AttrProp, "label-differs-from-model", <<o.objs[i].path, o.objs[i].label, x.objs[i].label>>)
          /\ Chk(o.objs[i].label = xLast.objs[i].label, "C10", "label-is-not-the-last-assignment", <<o.objs[i].path, o.objs[i].label, xLast.objs[i].label>>)
+         /\ ("cls" \in DOMAIN o.objs[i]) => Chk(FoldPath(o.objs[i].cls) = clsLast[i], "C10", "class-is-not-the-last-assignment", <<o.objs[i].path, o.objs[i].cls, clsLast[i]>>)
   /\ Chk([j \in 1..Len(o.edges) |-> EdgeKey(o.edges[j])] = [j \in 1..Len(x.edges) |-> EdgeKey(x.edges[j])], "C09", "connections-or-their-order-differ-from-declaration-order",
          <<[j \in 1..Len(o.edges) |-> EdgeKey(o.edges[j])], [j \in 1..Len(x.edges) |-> EdgeKey(x.edges[j])]>>)
   /\ Chk(EdgesAgree(o, x), IF d.k \in {"eref", "enull"} THEN "C11" ELSE "C10", "connection-label-attribute-or-index-differs",
@@ -62,12 +63,12 @@ Decl(e) ==
   LET d == Decls[e.d]
       s1 == ApplyR(st, d, "stable")        \* the code's rule
       s2 == ApplyR(st, d, "position")
-      x1 == [objs |-> [i \in 1..Len(s1.objs) |-> ProjObj(s1.objs[i])], edges |-> Proj(s1).edges]
+      x1 == [objs |-> [i \in 1..Len(s1.objs) |-> ProjObj(WithClasses(s1.cdefs, s1.objs[i]))], edges |-> Proj(s1).edges]
       x2 == Proj(s2)
       usePos == ~s2.err /\ e.err = 0 /\ (s1.err \/ ~EdgesAgree(e.obs, Proj(s1))) /\ EdgesAgree(e.obs, x2)
       s == IF usePos THEN s2 ELSE s1
-      x == [objs |-> [i \in 1..Len(s.objs) |-> [ProjObj(s.objs[i]) EXCEPT !.label = LabelOfR(s.objs[i], "code")]], edges |-> Proj(s).edges]
-      xLast == [objs |-> [i \in 1..Len(s.objs) |-> [ProjObj(s.objs[i]) EXCEPT !.label = LabelOfR(s.objs[i], "lastwriter")]], edges |-> Proj(s).edges]
+      x == [objs |-> [i \in 1..Len(s.objs) |-> [ProjObj(WithClasses(s.cdefs, s.objs[i])) EXCEPT !.label = LabelOfR(WithClasses(s.cdefs, s.objs[i]), "code")]], edges |-> Proj(s).edges]
+      xLast == [objs |-> [i \in 1..Len(s.objs) |-> [ProjObj(WithClasses(s.cdefs, s.objs[i])) EXCEPT !.label = LabelOfR(WithClasses(s.cdefs, s.objs[i]), "lastwriter")]], edges |-> Proj(s).edges]
   IN
   /\ st' = s /\ prog' = Append(prog, e.d)
   /\ IF st.err THEN UNCHANGED prev      \* an earlier declaration was (rightly) rejected: nothing more to compare
@@ -77,7 +78,7 @@ Decl(e) ==
         THEN Chk(s1.err \/ s2.err, IF d.k \in {"eref", "enull"} THEN "C11" ELSE "C10", "valid-declaration-rejected", <<e.text, e.msg>>)
         ELSE /\ Chk(~(s1.err /\ s2.err), "C11", "reference-to-missing-index-accepted", e.text)
              /\ ObsWF(e.obs)
-             /\ ~s.err => Compare(e.obs, x, xLast, d)
+             /\ ~s.err => Compare(e.obs, x, xLast, d, [i \in 1..Len(s.objs) |-> s.objs[i].clsLast])
              /\ d.k = "eref" => Chk(Changed(prev, e.obs) <= 1, "C11", "indexed-reference-changed-several-connections", <<e.text, Changed(prev, e.obs)>>)
 
 TInit == l = 1 /\ tid = 0 /\ st = Empty /\ prog = <<>> /\ prev = NoObs
